@@ -32,6 +32,7 @@ static void cr_gate_fire(void);       /* in-process server: kill + reap the vict
 static int cr_fserver_gone(void);     /* harness-side client: forked server reaped? */
 static int cr_idle_point(void);       /* in-process server loop is idle; returns 1 to stop the loop */
 static void cr_fserver_idle_kill(void); /* harness-side client: SIGKILL + reap the (idle) forked server */
+static void cr_hclient_sleeps(void);    /* harness-side client: entered nanosleep (a zombie server may be reaped now) */
 
 /* server-death direction, the armed call of the server is never reached and the client waits for
  * ever: the server is killed while it sits idle, after it made no call for this long (real time) */
@@ -465,6 +466,7 @@ int nanosleep(const struct timespec *req, struct timespec *rem)
 	if (cr_role == CR_ROLE_HCLIENT) {
 		cr_vclock_ms += (int64_t)req->tv_sec * 1000 + req->tv_nsec / 1000000;
 		if (rem) { rem->tv_sec = 0; rem->tv_nsec = 0; }
+		cr_hclient_sleeps();
 		cr_real_sleep_us(500);
 	} else {
 		r = real_nanosleep(req, rem);
